@@ -175,6 +175,16 @@ def gen_broom(rng, min_leaves=9, max_leaves=13):
     return {"triples": layout(order, lengths, gaps, rng), "family": "broom:%d+%d" % (handles, m)}
 
 
+def gen_big_ladder(rng, min_k=10, max_k=14):
+    """k mutually crossing stems (a clique): FCFS needs k levels, i.e. two-digit orders and the letter
+    brackets.  Only used where no exact solve is needed (the solver fails before it would solve)."""
+    k = rng.randint(min_k, max_k)
+    order = list(range(k)) + list(range(k))
+    lengths = [rng.choice([1, 1, 2]) for _ in range(k)]
+    gaps = [rng.choice([0, 1]) for _ in range(len(order) + 1)]
+    return {"triples": layout(order, lengths, gaps, rng), "family": "bigladder:%d" % k}
+
+
 def all_matchings(n):
     """Every perfect-or-partial matching on positions 1..n as a sorted tuple of pairs."""
 
